@@ -1,4 +1,4 @@
 SPECIFICATION Spec
-INVARIANTS AtMostOnce SentAfterWritten OnlyAccepted WriteFailure ErrOnlyOnFailure ForwardedUnlessCancelled
+INVARIANTS AtMostOnce SentAfterWritten OnlyAccepted WriteFailure ErrOnlyOnFailure ForwardedUnlessCancelled CountedOnce
 PROPERTIES NoSendBeforeWrite Progress StaysBlocked
 CHECK_DEADLOCK FALSE
